@@ -29,7 +29,10 @@ META = {
 
 def obligations(tier):
     t = 200 if tier == "quick" else 600
-    return [
+    extra = [CH("every_class_arguments_and_copies", H, "every_class", t * 2, mode="E1s", functions=F,
+                bounds="enriched instance of every SDO/SRO/SCO class of both versions (59): parse twice from one dict, constructor, deepcopy, new_version, "
+                       "revoke, add_markings, Bundle, MemoryStore; argument snapshots and container identity")] if tier == "thorough" else []
+    return extra + [
         CH("setattr_refused", H, "setattr_refused", t, functions=F[:1], stubs=[FMT], bounds="attribute name: every str of 1..4 chars; value unbounded int"),
         CH("delete_and_item_assignment_refused", H, "delattr_refused", t, mode="E1s", functions=F[:1], bounds="4 properties x delattr / del item / item assignment"),
         CH("deepcopy_shares_nothing", H, "deepcopy_independent", t, mode="E1s", functions=F[1:3], bounds="5 container-rich objects x (deepcopy, new_version)"),
